@@ -145,7 +145,7 @@ func suiteSvc(tier string, r *rng) func(emit func(pureCase)) {
 						serv.Stop(nil)
 					} else if m.closedH != nil {
 						cause = fmt.Errorf("lost")
-						m.closedH(cause)
+						m.lose(cause)
 					} else {
 						serv.Stop(fmt.Errorf("lost"))
 						cause = fmt.Errorf("lost")
@@ -331,7 +331,7 @@ func restartCase(how string) pureCase {
 	if how == "stop" {
 		serv.Stop(nil)
 	} else if m.closedH != nil {
-		m.closedH(fmt.Errorf("lost"))
+		m.lose(fmt.Errorf("lost"))
 	}
 	rev = 2
 	if err := serv.Start(); err != nil {
